@@ -137,6 +137,12 @@ pub trait Prop: Sync + Send + Copy + 'static {
     fn assumptions(&self) -> Vec<String>;
     fn real_components(&self) -> Vec<&'static str>;
     fn stub_components(&self) -> Vec<&'static str>;
+    /// one-time preparation on the main thread (loading schemas, ...)
+    fn prepare(&self) {}
+    /// blind spots computed from the aggregated counters (dynamic coverage requirements)
+    fn post_check(&self, _counters: &BTreeMap<String, u64>, _tier: Tier) -> Vec<String> {
+        Vec::new()
+    }
     /// counters that must be non-zero at the end of a thorough run (blind-spot detection)
     fn required_probes(&self, _tier: Tier) -> Vec<&'static str> {
         Vec::new()
@@ -373,6 +379,7 @@ struct WorkerAgg {
 pub fn run_check<P: Prop>(prop: &P, opt: &Options) -> i32 {
     let t0 = simos::mono_secs();
     let id = prop.id();
+    prop.prepare();
     println!("VERIF_SEED={} property={} tier={} harness=\"{}\"", opt.seed, id, opt.tier.name(), HARNESS_VERSION);
     let root = scratch_root();
     let _ = std::fs::create_dir_all(&root);
@@ -600,6 +607,7 @@ pub fn run_check<P: Prop>(prop: &P, opt: &Options) -> i32 {
                 blind.push(p.to_string());
             }
         }
+        blind.extend(prop.post_check(&counters, opt.tier));
     }
     if det_mismatch > 0 {
         exit = 2;
@@ -613,7 +621,8 @@ pub fn run_check<P: Prop>(prop: &P, opt: &Options) -> i32 {
     if !opt.no_evidence {
         let faults: BTreeMap<&str, u64> = counters.iter().filter(|(k, _)| k.starts_with("fault.")).map(|(k, v)| (&k[6..], *v)).collect();
         let sys: BTreeMap<&str, u64> = counters.iter().filter(|(k, _)| k.starts_with("sys.")).map(|(k, v)| (&k[4..], *v)).collect();
-        let probes: BTreeMap<&str, u64> = counters.iter().filter(|(k, _)| !k.starts_with("sys.") && !k.starts_with("fault.")).map(|(k, v)| (k.as_str(), *v)).collect();
+        let probes: BTreeMap<&str, u64> = counters.iter().filter(|(k, _)| !k.starts_with("sys.") && !k.starts_with("fault.") && !k.starts_with("cov.")).map(|(k, v)| (k.as_str(), *v)).collect();
+        let cov_fields = counters.keys().filter(|k| k.starts_with("cov.")).count();
         let ev = json!({
             "property_id": id,
             "tier": opt.tier.name(),
@@ -634,6 +643,7 @@ pub fn run_check<P: Prop>(prop: &P, opt: &Options) -> i32 {
                 "simulated_clock_seconds_advanced": sim_clock_s,
                 "faults_fired": faults,
                 "probes": probes,
+                "wire_fields_populated": cov_fields,
                 "blind_spots": blind,
                 "determinism": {"reexecuted_runs": det_n, "mismatches": det_mismatch},
                 "real_components": prop.real_components(),
@@ -717,6 +727,7 @@ pub fn replay<P: Prop>(prop: &P, path: &str, quiet: bool) -> i32 {
             return 2;
         }
     };
+    prop.prepare();
     let root = scratch_root();
     let disk = format!("{}/replay", root);
     let _ = std::fs::create_dir_all(&disk);
